@@ -183,6 +183,20 @@ DString * stdin_buffer(void) {
 		d_string_append_c_array(buffer, chunk, bytes);
 	}
 
+	// Strip UTF-8 BOM (same as scan_file())
+	if (strncmp(buffer->str, "\xef\xbb\xbf", 3) == 0) {
+		d_string_erase(buffer, 0, 3);
+	}
+
+	// Strip UTF-16 BOMs
+	if (strncmp(buffer->str, "\xef\xff", 2) == 0) {
+		d_string_erase(buffer, 0, 2);
+	}
+
+	if (strncmp(buffer->str, "\xff\xfe", 2) == 0) {
+		d_string_erase(buffer, 0, 2);
+	}
+
 	fclose(stdin);
 
 	return buffer;
